@@ -78,6 +78,9 @@ def analyze(ctx, ex, proc, only_committed_clause=False):
             if e.table == 'user_inst_coll_resources':
                 key, vals = d['key'], d['values']
                 if not only_committed_clause:
+                    # (wave 4) C01's own statement of the guard: the totals of a group that is already cancelled - itself or through
+                    # an ancestor - were moved by that earlier cancellation; its rows are stale and must not be moved again
+                    SP.add_valid(ctx, '%s/path%d/user-counters/moved-only-if-the-group-is-not-already-cancelled-itself-or-through-an-ancestor' % (proc, pi), pc_e, pre, z3.Not(SP.grp_cancelled(base, bb.v, gg)))
                     user = bt0.get([bb.v], 'user')
                     SP.add_valid(ctx, '%s/path%d/user-counters/key-is-(batch-user, inst_coll, token 0)' % (proc, pi), pc_e, pre + [d['cond']], z3.And(key['user'].v == user.v, z3.Not(key['user'].n), key['token'].v == 0))
                     for col, goal in d['additivity_goals']:
